@@ -1,6 +1,10 @@
 package main
 
-import "go/ast"
+import (
+	"fmt"
+	"go/ast"
+	"sort"
+)
 
 // extra emits the facts beyond the C08 tables; extended property by property.
 func extra() {
@@ -12,6 +16,58 @@ func extra() {
 	ar := consts(parse("pkg/chart/v2/loader/archive.go"))
 	emitNat("maxDecompressedChartSize", need(ar, "MaxDecompressedChartSize"))
 	emitNat("maxDecompressedFileSize", need(ar, "MaxDecompressedFileSize"))
+	// template function map: functions removed from sprig, functions added, DNS stub guard
+	fm := funcDecl(parse("pkg/engine/funcs.go"), "", "funcMap")
+	var deleted, added []string
+	if fm != nil && fm.Body != nil {
+		ast.Inspect(fm.Body, func(n ast.Node) bool {
+			switch x := n.(type) {
+			case *ast.CallExpr:
+				if id, ok := x.Fun.(*ast.Ident); ok && id.Name == "delete" && len(x.Args) == 2 {
+					if s, ok := litString(x.Args[1], nil); ok {
+						deleted = append(deleted, s)
+					}
+				}
+			case *ast.CompositeLit:
+				if sel, ok := x.Type.(*ast.SelectorExpr); ok && sel.Sel.Name == "FuncMap" {
+					for _, el := range x.Elts {
+						if kv, ok := el.(*ast.KeyValueExpr); ok {
+							if s, ok := litString(kv.Key, nil); ok {
+								added = append(added, s)
+							}
+						}
+					}
+				}
+			}
+			return true
+		})
+	}
+	sort.Strings(deleted)
+	sort.Strings(added)
+	emitList("sprigDeleted", deleted)
+	emitList("extraFuncs", added)
+	// engine.go: `if !e.EnableDNS { funcMap["getHostByName"] = ... }`
+	eng := parse("pkg/engine/engine.go")
+	guarded := false
+	ast.Inspect(eng, func(n ast.Node) bool {
+		if is, ok := n.(*ast.IfStmt); ok {
+			if un, ok := is.Cond.(*ast.UnaryExpr); ok && un.Op.String() == "!" {
+				if sel, ok := un.X.(*ast.SelectorExpr); ok && sel.Sel.Name == "EnableDNS" {
+					for _, st := range is.Body.List {
+						if as, ok := st.(*ast.AssignStmt); ok && len(as.Lhs) == 1 {
+							if ix, ok := as.Lhs[0].(*ast.IndexExpr); ok {
+								if s, ok := litString(ix.Index, nil); ok && s == "getHostByName" {
+									guarded = true
+								}
+							}
+						}
+					}
+				}
+			}
+		}
+		return true
+	})
+	fmt.Fprintf(&out, "def dnsStubbedUnlessEnabled : Bool := %v\n", guarded)
 	// order in which Options.MergeValues applies the value-flag families
 	emitList("valueFlagOrder", rangeOrder(funcDecl(parse("pkg/cli/values/options.go"), "Options", "MergeValues")))
 }
